@@ -1,9 +1,11 @@
 (* C45, state variables: used when state variables inherit the physical bounds of their glossary entry in the library *)
-From Coq Require Import String List.
+From Coq Require Import String List ZArith Bool Arith Sorted.
 From C45 Require Import C45Model C45Spec C45Proofs.
+Import ListNotations.
+Local Open Scope string_scope.
 Local Open Scope list_scope.
 Theorem C45_state_variables_inherit_glossary_bounds : forall vr g d,
   persistent_not_completed vr = false -> dkind d = Behaviour ->
-  Forall2 (scalar_faithful g (dunit d)) (dsvs d ++ dasvs d) (t_isvs (symbols vr g d)).
+  Forall2 (scalar_faithful g (dunit d)) (dsl_svs (ddsl d) (dsvs d) ++ dasvs d) (t_isvs (symbols vr g d)).
 Proof. exact d3_holds. Qed.
 Print Assumptions C45_state_variables_inherit_glossary_bounds.
